@@ -2,7 +2,7 @@ CONSTANTS
   Dev = {}
   MaxReq = 1
   TickMs = 10000
-  StConfs <- St_bounds
+  StConfs <- St_low
   RqCap = 8
   ChanCap = 8
   MaxFrames = 1
@@ -14,7 +14,7 @@ CONSTANTS
   XfrAll = FALSE
   QVars = {}
   EndKinds = {}
-  MaxOps = 66
+  MaxOps = 7
   Frames <- GFrames
 SPECIFICATION GenSpec
 VIEW GenView
